@@ -47,7 +47,7 @@ func selfArgs(out string, stub bool) []string {
 
 func checkC19(c *Ctx) error {
 	w := c.W
-	c.Rule = "self-hosting fixpoint replay: generation g regenerates internal/gontainer/gontainer.go with the tool built from generation g-1 (g=0: the checked-in file), compared byte for byte modulo the `// gontainer version:` line; generation 0 runs an unstamped build, generations 1 and 2 are rebuilt with the Makefile's ldflags stamps (clean, then dirty tree); regeneration happens in place like `make self-compile`; the final tree is also built with release stamps (.goreleaser.yaml ldflags, versions with and without the v prefix, other major/minor numbers, pre-release and build metadata) and each such binary regenerates once; each (generation, repetition) comparison is one case, distinct by (generation, repetition)"
+	c.Rule = "self-hosting fixpoint replay: generation g regenerates internal/gontainer/gontainer.go with the tool built from generation g-1 (g=0: the checked-in file), compared byte for byte modulo the `// gontainer version:` line; generation 0 runs an unstamped build, generations 1 and 2 are rebuilt with the Makefile's ldflags stamps (clean, then dirty tree); regeneration happens in place like `make self-compile`; the final tree is also built with release stamps (.goreleaser.yaml ldflags, versions with and without the v prefix, other major/minor numbers, pre-release and build metadata) and each such binary regenerates once; the configuration is also reached through a linked directory, per-file links, copies, absolute paths and redundant path elements; each (generation, repetition) comparison is one case, distinct by (generation, repetition)"
 	c.Assumptions = []string{"Makefile self-compile arguments are the intended self configuration", "go build of the scratch copy is faithful to /repo's working tree"}
 	gens := 3
 	reps := c.Pick(2, 10)
@@ -143,6 +143,64 @@ func checkC19(c *Ctx) error {
 		got, _ := os.ReadFile(out)
 		if run.Res.Exit != 0 || normGen(got) != want {
 			c.Violate("self-config-with-empty-patterns-differs", fmt.Sprintf("self configuration given with extra patterns that match nothing: exit %d, output equal to the checked-in file: %v\n%s", run.Res.Exit, normGen(got) == want, firstDiff(want, normGen(got))), nil)
+		}
+	}
+	// other ways of reaching the same files: the tool's configuration through a linked directory, through per-file links
+	// (all files / only the main one), as copies elsewhere, by absolute paths from another working directory, with redundant
+	// path elements. The list of file contents is the same, so the container is the same
+	{
+		src := filepath.Join(w.Repo, "internal/gontainer")
+		names, _ := filepath.Glob(filepath.Join(src, "gontainer*.yaml"))
+		type layout struct {
+			name string
+			cwd  string
+			dir  string // where the patterns point
+		}
+		var lays []layout
+		// (a) linked directory
+		la := w.TempDir("c19l")
+		_ = os.Symlink(src, filepath.Join(la, "cfg"))
+		lays = append(lays, layout{"linked-directory", la, "cfg"})
+		// (b) every file is a link
+		lb := w.TempDir("c19l")
+		_ = os.MkdirAll(filepath.Join(lb, "cfg"), 0o755)
+		for _, n := range names {
+			_ = os.Symlink(n, filepath.Join(lb, "cfg", filepath.Base(n)))
+		}
+		lays = append(lays, layout{"every-file-linked", lb, "cfg"})
+		// (c) only the main file is a link, the others are copies
+		lc := w.TempDir("c19l")
+		_ = os.MkdirAll(filepath.Join(lc, "cfg"), 0o755)
+		for _, n := range names {
+			if filepath.Base(n) == "gontainer.yaml" {
+				_ = os.Symlink(n, filepath.Join(lc, "cfg", filepath.Base(n)))
+				continue
+			}
+			b, _ := os.ReadFile(n)
+			_ = os.WriteFile(filepath.Join(lc, "cfg", filepath.Base(n)), b, 0o644)
+		}
+		lays = append(lays, layout{"main-file-linked", lc, "cfg"})
+		// (d) plain copies elsewhere, read-only
+		ld := w.TempDir("c19l")
+		_ = os.MkdirAll(filepath.Join(ld, "deep/er/cfg"), 0o755)
+		for _, n := range names {
+			b, _ := os.ReadFile(n)
+			_ = os.WriteFile(filepath.Join(ld, "deep/er/cfg", filepath.Base(n)), b, 0o444)
+		}
+		lays = append(lays, layout{"read-only-copies", ld, "deep/er/cfg"})
+		// (e) absolute patterns from an unrelated working directory; (f) redundant path elements
+		lays = append(lays, layout{"absolute-from-elsewhere", w.TempDir("c19l"), src})
+		lays = append(lays, layout{"redundant-path-elements", w.Repo, "./internal//gontainer/../gontainer/."})
+		for _, l := range lays {
+			out := filepath.Join(w.TempDir("c19o"), "gontainer.go")
+			args := []string{"build", "-i", l.dir + "/gontainer.yaml", "-i", l.dir + "/gontainer_*.yaml", "-o", out}
+			run := cli.Do(w, bin, nil, l.cwd, out, args...)
+			c.Eval("layout/"+l.name, true)
+			c.Add("alternative_layouts_of_the_self_configuration", 1)
+			got, _ := os.ReadFile(out)
+			if run.Res.Exit != 0 || normGen(got) != want {
+				c.Violate("self-config-layout:"+l.name, fmt.Sprintf("the self configuration reached as %q (%v): exit %d, output equal to the checked-in file: %v\n%s\n%s", l.name, args, run.Res.Exit, normGen(got) == want, rejectReason2(run), firstDiff(want, normGen(got))), nil)
+			}
 		}
 	}
 	// the stub of the self configuration must be generated too (Makefile generate-stub) and be stable
